@@ -88,3 +88,112 @@ Example C03_default_spline_flow_is_covered : forall (u1 u2 u3 h1 h2 h3 e1 e2 : R
                 (rq_tail_constant Rops (min_derivative (rq_default_cfg Rops)) :: (e1 :: e2 :: nil) ++
                  (rq_tail_constant Rops (min_derivative (rq_default_cfg Rops)) :: nil)).
 Proof. intros. apply default_wellformed; cbn; try reflexivity; try lra. split; [apply Nat.lt_0_succ | repeat constructor]. Qed.
+
+(* ---- the WHOLE piecewise-linear spline under an integral: although its log-abs-det jumps at every knot, the density
+   phi(F x) exp(logabsdet x) integrates over [left, right] to the base mass of [bottom, top], for ANY unnormalised pdf and any
+   continuous base density ---- *)
+From NF Require Import Model.SplineLinear Proofs.SplineLinearWhole Proofs.SplineLinearIntegral.
+Theorem C03_linear_whole_spline_change_of_variables :
+  forall (bx : @box R) (u : list R), u <> nil -> b_left bx < b_right bx -> b_bottom bx < b_top bx ->
+  forall phi : R -> R, (forall y, b_bottom bx <= y <= b_top bx -> continuous phi y) ->
+  is_RInt (fun x => phi (FL bx u x) * exp (FLlad bx u x)) (b_left bx) (b_right bx) (RInt phi (b_bottom bx) (b_top bx)).
+Proof. intros bx u Hne Hlr Hbt phi Hphi. exact (linear_whole_change_of_variables bx u Hne Hlr Hbt phi Hphi). Qed.
+Print Assumptions C03_linear_whole_spline_change_of_variables.
+
+(* Flow(PiecewiseLinearCDF, uniform on [0, 1]) (log-density of the base: 0 on the unit interval): exp(log_prob), with the
+   generated flow_log_prob, integrates to exactly one over the unit interval for every parameter vector *)
+Theorem C03_linear_cdf_flow_over_the_unit_uniform_is_normalised :
+  forall u : list R, u <> nil ->
+  is_RInt (fun x => exp (flow_log_prob Rops 0 (FLlad {| b_left := 0; b_right := 1; b_bottom := 0; b_top := 1 |} u x))) 0 1 1.
+Proof. intros u Hne. exact (linear_cdf_flow_normalised u Hne). Qed.
+Print Assumptions C03_linear_cdf_flow_over_the_unit_uniform_is_normalised.
+
+(* ---- the same through the WHOLE piecewise-quadratic spline (both height forms), whose derivative is continuous but has a kink
+   at every knot ---- *)
+From NF Require Import Model.SplineQuadratic Proofs.SplineQuadWhole Proofs.SplineQuadIntegral.
+Theorem C03_quadratic_whole_spline_change_of_variables :
+  forall (minw minh : R) (bx : @box R) (uw uh : list R), uw <> nil ->
+  length uh = S (length uw) \/ (length uh = (length uw - 1)%nat /\ (2 <= length uw)%nat) ->
+  0 <= minw -> minw * INR (length uw) <= 1 -> 0 <= minh -> minh * INR (length uw) <= 1 ->
+  b_left bx < b_right bx -> b_bottom bx < b_top bx ->
+  forall phi : R -> R, (forall y, b_bottom bx <= y <= b_top bx -> continuous phi y) ->
+  is_RInt (fun x => phi (QF minw minh bx uw uh x) * exp (QFlad minw minh bx uw uh x)) (b_left bx) (b_right bx)
+          (RInt phi (b_bottom bx) (b_top bx)).
+Proof.
+  intros minw minh bx uw uh HK Hlh Hw0 HwK Hh0 HhK Hlr Hbt phi Hphi.
+  exact (quadratic_whole_change_of_variables minw minh bx uw uh HK Hlh Hw0 HwK Hh0 HhK Hlr Hbt phi Hphi).
+Qed.
+Print Assumptions C03_quadratic_whole_spline_change_of_variables.
+
+Theorem C03_quadratic_cdf_flow_over_the_unit_uniform_is_normalised :
+  forall (minw minh : R) (uw uh : list R), uw <> nil ->
+  length uh = S (length uw) \/ (length uh = (length uw - 1)%nat /\ (2 <= length uw)%nat) ->
+  0 <= minw -> minw * INR (length uw) <= 1 -> 0 <= minh -> minh * INR (length uw) <= 1 ->
+  is_RInt (fun x => exp (flow_log_prob Rops 0 (QFlad minw minh {| b_left := 0; b_right := 1; b_bottom := 0; b_top := 1 |} uw uh x))) 0 1 1.
+Proof. intros minw minh uw uh HK Hlh Hw0 HwK Hh0 HhK. exact (quadratic_cdf_flow_normalised minw minh uw uh HK Hlh Hw0 HwK Hh0 HhK). Qed.
+Print Assumptions C03_quadratic_cdf_flow_over_the_unit_uniform_is_normalised.
+
+(* the hypotheses are met by the library's default minimum bin width / height (1e-3) with five bins and ANY parameters *)
+From Coq Require Import Lra.
+From NF Require Import Gen.SplineQuadratic.
+Example C03_default_quadratic_cdf_flow_is_covered : forall (u1 u2 u3 u4 u5 h0 h1 h2 h3 h4 h5 : R),
+  is_RInt (fun x => exp (flow_log_prob Rops 0 (QFlad (quad_DEFAULT_MIN_BIN_WIDTH Rops) (quad_DEFAULT_MIN_BIN_HEIGHT Rops)
+                                                 {| b_left := 0; b_right := 1; b_bottom := 0; b_top := 1 |}
+                                                 (u1 :: u2 :: u3 :: u4 :: u5 :: nil) (h0 :: h1 :: h2 :: h3 :: h4 :: h5 :: nil) x))) 0 1 1.
+Proof.
+  intros. apply C03_quadratic_cdf_flow_over_the_unit_uniform_is_normalised.
+  - discriminate.
+  - left. reflexivity.
+  - unfold quad_DEFAULT_MIN_BIN_WIDTH, o_lit. cbn [o_div o_ofZ Rops]. lra.
+  - unfold quad_DEFAULT_MIN_BIN_WIDTH, o_lit. cbn [o_div o_ofZ Rops length INR]. lra.
+  - unfold quad_DEFAULT_MIN_BIN_HEIGHT, o_lit. cbn [o_div o_ofZ Rops]. lra.
+  - unfold quad_DEFAULT_MIN_BIN_HEIGHT, o_lit. cbn [o_div o_ofZ Rops length INR]. lra.
+Qed.
+
+(* ---- and through the WHOLE piecewise-cubic spline, forward direction (the direction log_prob uses): any unnormalised widths,
+   heights and boundary derivatives ---- *)
+From NF Require Import Model.SplineCubic Proofs.SplineCubicWhole Proofs.SplineCubicIntegral.
+Theorem C03_cubic_whole_spline_change_of_variables :
+  forall (minw minh eps thr : R) (bx : @box R) (uw uh : list R) (ul ur : R), uw <> nil -> length uh = length uw ->
+  0 <= minw -> minw * INR (length uw) <= 1 -> 0 <= minh -> minh * INR (length uw) <= 1 ->
+  b_left bx < b_right bx -> b_bottom bx < b_top bx ->
+  forall phi : R -> R, (forall y, b_bottom bx <= y <= b_top bx -> continuous phi y) ->
+  is_RInt (fun x => phi (CF minw minh eps thr bx uw uh ul ur x) * exp (CFlad minw minh eps thr bx uw uh ul ur x)) (b_left bx) (b_right bx)
+          (RInt phi (b_bottom bx) (b_top bx)).
+Proof.
+  intros minw minh eps thr bx uw uh ul ur HK Hlh Hw0 HwK Hh0 HhK Hlr Hbt phi Hphi.
+  exact (cubic_whole_change_of_variables minw minh eps thr bx uw uh ul ur HK Hlh Hw0 HwK Hh0 HhK Hlr Hbt phi Hphi).
+Qed.
+Print Assumptions C03_cubic_whole_spline_change_of_variables.
+
+(* ---- the one-dimensional flows Flow(piecewise-linear / -quadratic / -cubic spline with linear tails, StandardNormal([1])):
+   exp(log_prob), built from the generated flow_log_prob, Gaussian energy term and normaliser, integrates over [-A, A] to exactly the
+   standard normal mass of [-A, A], for every A beyond the tail bound, every accepted configuration and ALL parameters ---- *)
+From NF Require Import Proofs.SplineLinearTails Proofs.SplineQuadTails Proofs.SplineCubicTails Proofs.FlowNormalisedLQC.
+Theorem C03_linear_spline_flow_carries_the_base_mass :
+  forall (B : R) (u : list R), 0 < B -> u <> nil -> forall A, B <= A ->
+  is_RInt (fun x => exp (flow_log_prob Rops (sn_lp1 (UL B u x)) (ULlad B u x))) (- A) A (RInt (fun y => exp (sn_lp1 y)) (- A) A).
+Proof. intros B u HB Hne A HA. exact (linear_flow_carries_the_base_mass B u HB Hne A HA). Qed.
+Print Assumptions C03_linear_spline_flow_carries_the_base_mass.
+
+Theorem C03_quadratic_spline_flow_carries_the_base_mass :
+  forall (minw minh B : R) (uw uh : list R), 0 < B -> uw <> nil -> (2 <= length uw)%nat -> length uh = (length uw - 1)%nat ->
+  0 <= minw -> minw * INR (length uw) <= 1 -> 0 <= minh -> minh * INR (length uw) <= 1 -> forall A, B <= A ->
+  is_RInt (fun x => exp (flow_log_prob Rops (sn_lp1 (UQ minw minh B uw uh x)) (UQlad minw minh B uw uh x))) (- A) A
+          (RInt (fun y => exp (sn_lp1 y)) (- A) A).
+Proof.
+  intros minw minh B uw uh HB HK H2 Hlh Hw0 HwK Hh0 HhK A HA.
+  exact (quadratic_flow_carries_the_base_mass minw minh B uw uh HB HK H2 Hlh Hw0 HwK Hh0 HhK A HA).
+Qed.
+Print Assumptions C03_quadratic_spline_flow_carries_the_base_mass.
+
+Theorem C03_cubic_spline_flow_carries_the_base_mass :
+  forall (minw minh eps thr B : R) (uw uh : list R) (ul ur : R), 0 < B -> uw <> nil -> length uh = length uw ->
+  0 <= minw -> minw * INR (length uw) <= 1 -> 0 <= minh -> minh * INR (length uw) <= 1 -> forall A, B <= A ->
+  is_RInt (fun x => exp (flow_log_prob Rops (sn_lp1 (UC minw minh eps thr B uw uh ul ur x)) (UClad minw minh eps thr B uw uh ul ur x))) (- A) A
+          (RInt (fun y => exp (sn_lp1 y)) (- A) A).
+Proof.
+  intros minw minh eps thr B uw uh ul ur HB HK Hlh Hw0 HwK Hh0 HhK A HA.
+  exact (cubic_flow_carries_the_base_mass minw minh eps thr B uw uh ul ur HB HK Hlh Hw0 HwK Hh0 HhK A HA).
+Qed.
+Print Assumptions C03_cubic_spline_flow_carries_the_base_mass.
